@@ -15,11 +15,13 @@ func init() {
 		Title: "the policy statement applied is the one scoped to the artifact's repository",
 		Run:   runC08,
 		Explain: "Statements are followed by role and dataflow: a value denotes element i of the document's TrustPolicies (its address, the element loaded, or the range variable's copy); what is known about it is the set of branch facts between the point where that element is taken and the point where it is remembered / cloned (facts of one iteration), composed through boolean module helpers, helpers answering with an enumeration constant, predicate closures (captured variables replaced by their only value) and slices.IndexFunc. " +
-			"(a) OCI selection: in the method or in the module helper it hands the document to, a statement (its clone, or a pointer to it that is cloned before it is returned) becomes the exact candidate only under equality-membership (slices.Contains, generic ==) of a value derived from the reference in that statement's own registryScopes, the wildcard candidate only under membership of the constant '*'; " +
+			"A candidate may also be remembered by its position in the list (an integer variable, 'none' = a negative constant; also returned by a scan helper): the element at that position is the statement remembered, provided the document is not written between remembering and use. " +
+			"(a) OCI selection: in the method or in the module helper it hands the document to, a statement (its clone, a pointer to it that is cloned before it is returned, or its position) becomes the exact candidate only under equality-membership (slices.Contains, an element compared with ==, slices.Index found) of a value derived from the reference in that statement's own registryScopes, the wildcard candidate only under membership of the constant '*'; " +
 			"that value is reference[:LastIndex(reference,\"@\")] (LastIndexByte '@' alike), and every success exit of the method lies behind 'separator found' and 'format validated' for it; the loop has no early exit; " +
-			"(b) precedence decided by abstract interpretation over candidate nil-ness, through a scan helper that answers nil for 'none': exact, else wildcard, else a non-nil error; the three verifier call sites turn a selection error into ErrorNoApplicableTrustPolicy; " +
-			"(c) blob selection: every statement a success exit can hand out is an element of the receiver's statements that satisfied Name == requested name (resp. its own global flag) when it was cloned; no success with nil or after an exhausted search; the global statement is used iff no name is given; " +
-			"(d) ownership: every statement handed out is the result of a clone (also through helpers); each clone shares no mutable storage with the document (every slice, map and pointer component, recursively through struct-valued fields, is freshly made or nil; a value-receiver clone that overwrites the reference-typed fields of its own copy counts, delegation to another clone method is judged there).",
+			"(b) precedence decided by abstract interpretation over the candidates ('none' / 'remembered', tagged exact or wildcard; the tag travels through phis, clones, element access by a remembered position, result tuples of scan helpers — one or both candidates, with or without an error — and helpers that pick among candidates), frame by frame up to the selection method: exact, else wildcard, else a nil statement with a non-nil error; " +
+			"the verifier functions that select a statement — directly or through helpers that hand the (statement, error) pair on — let no success pass a failed selection, and the outermost function of each call chain turns the selection error into ErrorNoApplicableTrustPolicy (or returns unchanged the error of a helper that has already done so); " +
+			"(c) blob selection: every statement a success exit can hand out is an element of the receiver's statements that satisfied Name == requested name (resp. its own global flag) when it was cloned; no success with nil or after an exhausted search (the edge on which the loop runs out of statements, as opposed to a break); the global statement is used iff no name is given (guards of calls inside verifier helpers are moved into the caller's frame); " +
+			"(d) ownership: every statement handed out is the result of a clone (also through helpers); each clone shares no mutable storage with the document (every slice, map and pointer component, recursively through struct-valued fields, is freshly made or nil, also when a module copier helper makes the copy; a value-receiver clone that overwrites the reference-typed fields of its own copy counts, delegation to another clone method is judged there).",
 		NotCov:  "the languages of the scope regular expressions; uniqueness of scopes is C09.",
 		Trusted: []string{"go/types, go/ssa", "strings.LastIndex / strings.LastIndexByte", "slices.IndexFunc returns the first index whose element satisfies the predicate, or -1", "Go slice/map aliasing semantics"},
 	})
@@ -58,16 +60,35 @@ func hasRefComponents(t types.Type, depth int) bool {
 // sharesNothing: value v (of type t) produced in fn shares no mutable storage
 // with fn's inputs when control reaches ret.
 func (w *World) sharesNothing(fn *ssa.Function, v ssa.Value, t types.Type, ret *ssa.Return, depth int) (bool, string) {
-	if depth > 5 {
+	if depth > 9 {
 		return false, "too deep"
 	}
 	if !hasRefComponents(t, 0) {
 		return true, ""
 	}
 	fi := w.Info(fn)
+	// The copy is made by a module helper (a slice or map copier extracted from the clone): what the helper returns is
+	// fresh if every one of its returns is — judged in the helper's own frame, for whatever argument it is given.
+	// (Pointers are left to the delegation rule below, struct values to the struct case.)
+	switch t.Underlying().(type) {
+	case *types.Slice, *types.Map:
+		if handled, ok, why := w.c08HelperFresh(v, t, depth); handled {
+			return ok, why
+		}
+	}
 	switch u := t.Underlying().(type) {
 	case *types.Slice:
 		switch x := v.(type) {
+		case *ssa.Phi:
+			for _, e := range x.Edges {
+				if e == v {
+					continue
+				}
+				if ok, why := w.sharesNothing(fn, e, t, ret, depth+1); !ok {
+					return false, why
+				}
+			}
+			return len(x.Edges) > 0, "empty phi"
 		case *ssa.MakeSlice:
 			return !hasRefComponents(u.Elem(), 0), "elements with references"
 		case *ssa.Const:
@@ -319,12 +340,16 @@ func c08Clones(c *Ctx) {
 	}
 }
 
-// selectionFns returns the methods of the two document types that return a statement and an error.
+// selectionFns returns the exported methods of the two document types that return a statement and an error: the
+// selection API. (An unexported method of the same shape is a helper of these: it is followed from them.)
 func selectionFns(w *World) []*ssa.Function {
 	var out []*ssa.Function
 	for _, fn := range w.FuncsOfPkg("verifier/trustpolicy") {
 		sig := fn.Signature
 		if sig.Recv() == nil || sig.Results().Len() != 2 || fn.Parent() != nil {
+			continue
+		}
+		if obj := fn.Object(); obj == nil || !obj.Exported() {
 			continue
 		}
 		rn := namedOf(sig.Results().At(0).Type())
@@ -479,13 +504,31 @@ func c08OCI(c *Ctx) {
 	detail := ""
 	exactArg := ""
 	for _, p := range headerPhis(loop.Header) {
-		if !c08IsStmtPtr(p.Type()) {
+		// A candidate is remembered as a statement pointer, or as the position of the statement in the list (an integer
+		// variable that is not a loop counter and with which a slice is indexed later on): assigning position e
+		// remembers element e of the list the loop runs over.
+		byIndex := c08IsIndexVar(LF, p)
+		if !c08IsStmtPtr(p.Type()) && !byIndex {
 			continue
 		}
 		var alts []c08Alt
 		for i, e := range p.Edges {
 			pred := loop.Header.Preds[i]
 			if !lb[pred.Index] || e == ssa.Value(p) {
+				continue
+			}
+			if byIndex {
+				edges := []c08IdxEdge{{e, pred}}
+				if q, isPhi := e.(*ssa.Phi); isPhi && !c08IsInduction(q) {
+					edges = c08IndexEdges(q, map[*ssa.Phi]bool{p: true})
+				}
+				for _, ie := range edges {
+					if _, isK := ie.V.(*ssa.Const); isK {
+						alts = append(alts, c08Alt{Nil: true})
+					} else {
+						alts = append(alts, R.stmtAlt(LF, c08StmtAtIndex(LF, loop.X, ie.V), ie.Pred))
+					}
+				}
 				continue
 			}
 			alts = append(alts, R.resolve(LF, e, pred, 0, map[*ssa.Phi]bool{p: true})...)
@@ -505,14 +548,11 @@ func c08OCI(c *Ctx) {
 			case scan.lift(alt.Doc) != wantDoc:
 				detail = "the candidate is an element of " + scan.lift(alt.Doc) + ", not of the document's statements"
 			default:
-				nT := 0
-				for l := range alt.Facts {
-					pre := "T(call:slices.Contains(" + c08STMT + ".RegistryScopes,"
-					if !strings.HasPrefix(l, pre) || !strings.HasSuffix(l, "))") {
-						continue
-					}
-					nT++
-					arg := scan.lift(strings.TrimSuffix(strings.TrimPrefix(l, pre), "))"))
+				// the values known to be members of this statement's registryScopes (c08Membership: slices.Contains, an
+				// element compared with ==, slices.Index found): exactly one, '*' or a value derived from the reference
+				args := c08Membership(alt.Facts)
+				for _, a := range args {
+					arg := scan.lift(a)
 					switch {
 					case arg == fmt.Sprintf("const:%q", wc):
 						kind = "wild"
@@ -521,7 +561,7 @@ func c08OCI(c *Ctx) {
 						exactArg = arg
 					}
 				}
-				if nT != 1 {
+				if len(args) != 1 {
 					kind = ""
 				}
 				if kind == "" {
@@ -569,15 +609,15 @@ func c08OCI(c *Ctx) {
 		okOnly := len(s.Exits) > 0
 		why := ""
 		R2 := newC08Resolver(w)
-		want := []string{"T(call:slices.Contains(" + c08STMT + ".RegistryScopes," + fmt.Sprintf("const:%q", wc) + "))"}
+		want := map[string]bool{fmt.Sprintf("const:%q", wc): true}
 		for _, f := range forms {
-			want = append(want, "T(call:slices.Contains("+c08STMT+".RegistryScopes,"+f.Path+"))")
+			want[f.Path] = true
 		}
 		for _, ex := range s.Exits {
-			v := ex.Ret.Results[0]
-			nn := c08NonNilAt(fiS, v, ex.Ret.Block())
+			v, vb := c08ExitValue(ex, 0)
+			nn := c08NonNilAt(fiS, v, vb)
 			n := 0
-			for _, alt := range R2.resolve(SEL, v, ex.Ret.Block(), 0, map[*ssa.Phi]bool{}) {
+			for _, alt := range R2.resolve(SEL, v, vb, 0, map[*ssa.Phi]bool{}) {
 				c.Evals++
 				switch {
 				case alt.Nil:
@@ -589,8 +629,8 @@ func c08OCI(c *Ctx) {
 				default:
 					n++
 					has := false
-					for _, f := range want {
-						if _, ok := alt.Facts[f]; ok {
+					for _, a := range c08Membership(alt.Facts) {
+						if want[a] {
 							has = true
 						}
 					}
@@ -615,143 +655,63 @@ func c08OCI(c *Ctx) {
 	}
 }
 
-// c08Precedence: finite decision table over the nil-ness of the two candidates when the loop is left. The scanning
-// function is interpreted from the loop exit; a returned candidate — or the clone of it (copy deferred to the exit) —
-// counts as that candidate when it is non-nil and as "nothing" when it is nil. When the scan lives in a helper without
-// error result, the selection method is interpreted from the helper call with the call's value nil / non-nil
-// accordingly: it must hand on a non-nil statement with a nil error and turn nil into a non-nil error.
+// c08Precedence: finite decision table over the two candidates when the loop is left: each is "nothing remembered"
+// (nil, resp. the initial constant of an index variable) or "a statement remembered". The scanning function is
+// interpreted abstractly from the loop exit to its returns, then — when the scan lives in a helper — the calling frames
+// from the helper call on with the call's results bound to what the helper returned, up to the selection method
+// (c08Prec in extra_c08.go: candidates carry a tag through phis, clones, element access by a remembered index, tuple
+// results and module helpers that pick among them). Every abstract path must end as specified: the exact candidate if
+// there is one, else the wildcard candidate, else a nil statement with a non-nil error.
 func c08Precedence(c *Ctx, SEL *ssa.Function, scan *c08Scan, exactPhi, wildPhi *ssa.Phi) {
 	w := c.W
 	LF, loop := scan.Fn, &scan.Loop
 	rule := "finite decision table (abstract interpretation over candidate nil-ness): exact match, else wildcard, else a non-nil error with a nil statement"
 	site := w.InstrPos(blockTerm(loop.Exit))
-	if len(scan.Chain) > 1 || (len(scan.Chain) == 1 && LF.Signature.Results().Len() != 1) {
-		c.Unk("oci/precedence", rule, site, "the scan is nested in helpers in a way the rule does not follow")
-		return
+	frames := []*ssa.Function{SEL}
+	for _, call := range scan.Chain {
+		frames = append(frames, staticCallee(call))
 	}
-	stripClone := func(v ssa.Value) ssa.Value {
-		if call, ok := v.(*ssa.Call); ok {
-			if g := staticCallee(call); g != nil && isCloneMethod(g) {
-				v = call.Call.Args[0]
-				if u, ok := v.(*ssa.UnOp); ok && u.Op == token.MUL {
-					v = u.X
-				}
-			}
-		}
-		return v
-	}
-	// outcome of one return of fn: which = what a non-nil / nil abstract value of the tracked values stands for
-	outcome := func(fn *ssa.Function, ret *ssa.Return, which map[ssa.Value]string) string {
-		r0 := stripClone(ret.Results[0])
-		got := "other:" + desc(ret.Results[0])
-		if k, ok := which[r0]; ok {
-			got = k
-		} else if isNilConst(r0) {
-			got = "none"
-		}
-		if len(ret.Results) == 2 {
-			r1 := ret.Results[1]
-			switch {
-			case isNilConst(r1):
-				if got == "none" {
-					got = "other:nil statement without error"
-				}
-			case w.Info(fn).nonNil(r1, ret.Block()):
-				if got == "none" {
-					got = "error"
-				} else {
-					got = "other:statement together with an error"
-				}
-			default:
-				got = "other:undetermined error " + desc(r1)
-			}
-		}
-		return got
-	}
+	P := newC08Prec(w)
 	okP := true
 	var bad []string
-	steps := 0
-	for _, ex := range []int{aNil, aNonNil} {
-		for _, wi := range []int{aNil, aNonNil} {
+	for _, ex := range []bool{false, true} {
+		for _, wi := range []bool{false, true} {
 			var want string
 			switch {
-			case ex == aNonNil:
+			case ex:
 				want = "exact"
-			case wi == aNonNil:
+			case wi:
 				want = "wildcard"
 			default:
 				want = "error"
 			}
-			ip := &Interp{Fn: LF, IntTypes: map[string]bool{}}
-			env := map[ssa.Value]AVal{exactPhi: {Kind: ex}, wildPhi: {Kind: wi}}
-			ip.Hook = func(in ssa.Instruction, e map[ssa.Value]AVal) (AVal, bool) {
-				if in == ssa.Instruction(exactPhi) {
-					return AVal{Kind: ex}, true
-				}
-				if in == ssa.Instruction(wildPhi) {
-					return AVal{Kind: wi}, true
-				}
-				return AVal{}, false
+			ea, ok1 := P.candidate(LF, loop, exactPhi, ex, "exact")
+			wa, ok2 := P.candidate(LF, loop, wildPhi, wi, "wildcard")
+			if !ok1 || !ok2 {
+				c.Unk("oci/precedence", rule, site, "a candidate does not start as nil / as a constant that is no position")
+				return
 			}
-			which := map[ssa.Value]string{exactPhi: "none", wildPhi: "none"}
-			if ex == aNonNil {
-				which[exactPhi] = "exact"
-			}
-			if wi == aNonNil {
-				which[wildPhi] = "wildcard"
-			}
-			outs := ip.Run(loop.Exit, loop.Header, env, nil, nil)
-			steps += ip.Steps
-			var gots []string
-			for _, o := range outs {
-				if o.Ret == nil || len(o.Ret.Results) == 0 {
-					gots = append(gots, "other:no return")
-					continue
+			tuples := P.run(LF, loop.Exit, loop.Header, map[ssa.Value]AVal{exactPhi: ea, wildPhi: wa})
+			for lvl := len(scan.Chain) - 1; lvl >= 0; lvl-- {
+				var next [][]AVal
+				for _, t := range tuples {
+					next = append(next, P.run(frames[lvl], scan.Chain[lvl].Block(), nil, P.bindCall(scan.Chain[lvl], t))...)
 				}
-				got := outcome(LF, o.Ret, which)
-				if len(scan.Chain) == 1 && (got == "exact" || got == "wildcard" || got == "none") {
-					// the selection method, from the helper call on
-					call := scan.Chain[0]
-					abs := aNonNil
-					if got == "none" {
-						abs = aNil
-					}
-					ip2 := &Interp{Fn: SEL, IntTypes: map[string]bool{}}
-					ip2.Hook = func(in ssa.Instruction, e map[ssa.Value]AVal) (AVal, bool) {
-						if in == ssa.Instruction(call) {
-							return AVal{Kind: abs}, true
-						}
-						return AVal{}, false
-					}
-					outs2 := ip2.Run(call.Block(), nil, map[ssa.Value]AVal{call: {Kind: abs}}, nil, nil)
-					steps += ip2.Steps
-					if len(outs2) == 0 {
-						gots = append(gots, "other:no path")
-					}
-					for _, o2 := range outs2 {
-						if o2.Ret == nil || len(o2.Ret.Results) != 2 {
-							gots = append(gots, "other:no return")
-							continue
-						}
-						gots = append(gots, outcome(SEL, o2.Ret, map[ssa.Value]string{call: got}))
-					}
-					continue
-				}
-				gots = append(gots, got)
+				tuples = c08DedupTuples(next)
 			}
-			if len(gots) == 0 {
+			if len(tuples) == 0 {
 				okP = false
 				bad = append(bad, "no path")
 			}
-			for _, got := range gots {
-				if got != want {
+			for _, t := range tuples {
+				if got := c08Judge(t); got != want {
 					okP = false
-					bad = append(bad, fmt.Sprintf("exact %s, wildcard %s: returns %s, specified %s", AVal{Kind: ex}, AVal{Kind: wi}, got, want))
+					bad = append(bad, fmt.Sprintf("exact %s, wildcard %s: returns %s, specified %s", c08Some(ex), c08Some(wi), got, want))
 				}
 			}
 		}
 	}
-	c.Evals += steps
+	c.Evals += P.steps
 	c.Check(okP, "oci/precedence", rule, site, strings.Join(uniq(bad), "; "))
 }
 
@@ -824,10 +784,10 @@ func c08Blob(c *Ctx) {
 			whySel, whyFound = "no success exit", "no success exit"
 		}
 		for _, ex := range s.Exits {
-			v := ex.Ret.Results[0]
-			nn := c08NonNilAt(fi, v, ex.Ret.Block())
+			v, vb := c08ExitValue(ex, 0)
+			nn := c08NonNilAt(fi, v, vb)
 			nStmt := 0
-			for _, alt := range R.resolve(fn, v, ex.Ret.Block(), 0, map[*ssa.Phi]bool{}) {
+			for _, alt := range R.resolve(fn, v, vb, 0, map[*ssa.Phi]bool{}) {
 				c.Evals++
 				switch {
 				case alt.Nil:
@@ -906,74 +866,132 @@ func c08Blob(c *Ctx) {
 }
 
 // c08CallSites: in the verifier, selection errors become ErrorNoApplicableTrustPolicy; global iff no name.
+//
+// The selection may be called directly or through verifier helpers that hand the (statement, error) pair on
+// (c08SelLike): a call of such a helper is a selection call of its caller. Every function with selection calls must let
+// no success pass a failed selection; the conversion of the error and the global-iff-no-name decision are owed by the
+// outermost function of each call chain (the helper's own failure is the selection error its callers see; the guards
+// of the calls inside a helper are moved into the caller's frame with the helper's parameters replaced by the caller's
+// arguments).
 func c08CallSites(c *Ctx) {
 	w := c.W
-	sel := map[*ssa.Function]bool{}
-	for _, f := range selectionFns(w) {
-		sel[f] = true
-	}
+	S := c08SelLike(w)
 	n := 0
 	for _, fn := range w.FuncsOfPkg("verifier") {
-		fi := w.Info(fn)
-		var calls []*ssa.Call
-		for _, ci := range allCalls(fn) {
-			if call, ok := ci.(*ssa.Call); ok && sel[staticCallee(call)] {
-				calls = append(calls, call)
-			}
-		}
+		calls := S.calls[fn]
 		if len(calls) == 0 {
 			continue
 		}
+		fi := w.Info(fn)
 		n++
 		c.SeenFn(fn.String())
-		// every failing exit reachable with a non-nil selection error returns ErrorNoApplicableTrustPolicy
+		var errDescs []string
+		for _, call := range calls {
+			errDescs = append(errDescs, descTailErr(call))
+		}
+		// a selection error surfaces as ErrorNoApplicableTrustPolicy:
+		//  - converted here: an exit behind `selection err != nil` returns the error type; or
+		//  - this function is a selection helper (its callers are judged for its error in turn), or the helper it
+		//    called has already converted (every failing exit of that helper returns the error type) and this function
+		//    returns that very error value behind `err != nil`.
 		okErr := false
+		how := "the selection error is not converted"
 		for _, b := range fn.Blocks {
 			r, isRet := blockTerm(b).(*ssa.Return)
-			if !isRet {
+			if !isRet || len(r.Results) == 0 {
 				continue
 			}
 			ev := r.Results[len(r.Results)-1]
-			if mi, ok := ev.(*ssa.MakeInterface); ok && strings.Contains(namedOf(mi.X.Type()), "NoApplicableTrustPolicy") {
-				g, _ := fi.mustPassBetween([]int{0}, map[int]bool{b.Index: true})
-				for l := range g {
-					if strings.HasPrefix(l, "NE(") && strings.Contains(l, "TrustPolicy(") && strings.HasSuffix(l, "#err),nil)") || strings.HasPrefix(l, "NE(") && strings.Contains(l, "TrustPolicy(") && strings.HasSuffix(l, "#err,nil)") {
-						okErr = true
-					}
+			g, _ := fi.mustPassBetween([]int{0}, map[int]bool{b.Index: true})
+			behind := false
+			for l := range g {
+				if c08ErrLabel(l, "NE", errDescs) {
+					behind = true
+				}
+			}
+			if !behind {
+				continue
+			}
+			if c08IsNoApplicable(w, ev, 0) {
+				okErr = true
+			}
+			if ex, ok := ev.(*ssa.Extract); ok {
+				if call, ok := ex.Tuple.(*ssa.Call); ok && S.converts(w, staticCallee(call)) && c08ErrLabel("NE("+desc(ex)+",nil)", "NE", errDescs) {
+					okErr = true // the helper's error is ErrorNoApplicableTrustPolicy already and is returned as it is
 				}
 			}
 		}
+		if !okErr && S.helper[fn] {
+			if len(S.callers[fn]) > 0 {
+				okErr = true // owed by the callers, each of which is judged for the call of this helper
+			} else {
+				how = "a selection helper that converts nothing and has no caller in the verifier"
+			}
+		}
 		c.Evals++
-		c.Check(okErr, "callsite/no-applicable-policy/"+fnName(fn), "a selection error surfaces as ErrorNoApplicableTrustPolicy", w.FnPos(fn), "the selection error is not converted")
+		c.Check(okErr, "callsite/no-applicable-policy/"+fnName(fn), "a selection error surfaces as ErrorNoApplicableTrustPolicy", w.FnPos(fn), how)
 		// success requires the selection to succeed
 		s := w.Summarize(fn, Mode{Kind: mErr})
 		okSucc := len(s.Exits) > 0
 		for _, ex := range s.Exits {
-			if _, h := hasLabel(ex.Checked, "EQ(", "TrustPolicy(", "#err", ",nil)"); !h {
+			h := false
+			for l := range ex.Checked {
+				if c08ErrLabel(l, "EQ", errDescs) {
+					h = true
+				}
+			}
+			if !h {
 				okSucc = false
 			}
 		}
-		c.Check(okSucc, "callsite/selection-required/"+fnName(fn), "must-check: no success without a successfully selected statement", w.FnPos(fn), "success possible after a failed selection")
+		var wit []string
+		if !okSucc {
+			// the same clause decided on paths instead of per exit (the error is tested separately after each of several
+			// selection calls, so no single test lies on every path): with every `selection err == nil` edge removed,
+			// no success exit can be reached from the entry
+			cut := fi.edgesMatching(func(l string, _ *ssa.If, _ bool) bool { return c08ErrLabel(l, "EQ", errDescs) })
+			if len(cut) > 0 {
+				wit = fi.successWitness(Mode{Kind: mErr}, entryState(), cut)
+				okSucc = wit == nil
+			}
+		}
+		c.Check(okSucc, "callsite/selection-required/"+fnName(fn), "must-check: no success without a successfully selected statement", w.FnPos(fn), "success possible after a failed selection", wit...)
+		if S.helper[fn] && len(S.callers[fn]) > 0 {
+			continue // global iff no name: decided in the callers' frames
+		}
+		var leaves []c08Leaf
 		isBlob := false
 		for _, call := range calls {
-			if namedOf(staticCallee(call).Signature.Recv().Type()) == "ngo/verifier/trustpolicy.BlobDocument" {
-				isBlob = true
+			for _, lf := range S.leaves(w, fn, call, 0) {
+				leaves = append(leaves, lf)
+				if lf.Fn == nil || namedOf(lf.Fn.Signature.Recv().Type()) == "ngo/verifier/trustpolicy.BlobDocument" {
+					isBlob = true
+				}
 			}
 		}
 		if isBlob {
 			// blob: global iff no name
 			ok := true
-			for _, call := range calls {
-				g := fi.GuardsOf(call)
-				isGlobal := staticCallee(call).Signature.Params().Len() == 0
-				tpn := paramWhere(fn, hasField("TrustPolicyName")) + ".TrustPolicyName"
-				if isGlobal && !labelHas(g, `EQ(`+tpn+`,const:"")`) {
+			tpn := paramWhere(fn, hasField("TrustPolicyName")) + ".TrustPolicyName"
+			for _, lf := range leaves {
+				if lf.Fn == nil {
+					ok = false // a call chain the rule does not follow
+					continue
+				}
+				_, eq := lf.Guards[`EQ(`+tpn+`,const:"")`]
+				_, ne := lf.Guards[`NE(`+tpn+`,const:"")`]
+				if _, h := lf.Guards[`EQ(len(`+tpn+`),const:0)`]; h {
+					eq = true // a string is empty iff its length is 0
+				}
+				if _, h := lf.Guards[`NE(len(`+tpn+`),const:0)`]; h {
+					ne = true
+				}
+				isGlobal := lf.Fn.Signature.Params().Len() == 0
+				if isGlobal && !eq {
 					ok = false
 				}
-				if !isGlobal {
-					if !labelHas(g, `NE(`+tpn+`,const:"")`) || desc(call.Call.Args[1]) != tpn {
-						ok = false
-					}
+				if !isGlobal && (!ne || len(lf.Args) < 2 || lf.Args[1] != tpn) {
+					ok = false
 				}
 			}
 			c.Check(ok, "callsite/global-iff-no-name", "the global statement is selected iff the caller gave no policy name; otherwise the statement with exactly the requested name", w.FnPos(fn), "the choice between global and named selection is not decided by TrustPolicyName == \"\"")
